@@ -49,7 +49,9 @@ LABEL_LIKE = ["from the start to the\nEND\nof the mapping phase.", "x\nEND_GROUP
               "a # b -\nc", "rule -----\nnext", "# ---- geometry ----", "x #3 is -\n broken"]
 # longer than any buffer or limit a lexer might have (4 kB)
 LONG = ["word " * 900, "x" * 4100, ("line one\n" * 500), "y" * 4095, "z" * 4096,
-        "w" * 4097, "ab " * 1366]
+        "w" * 4097, "ab " * 1366,
+        # longer than 64 KiB (one string value is one lexeme to a lexer)
+        "word " * 14000, "x" * 66000, "line\n" * 30000]
 HAZARD_STRINGS = KEYWORD_LIKE + NUMBER_LIKE + DATE_LIKE + SPECIAL + KEYWORD_PREFIXED + \
     LABEL_LIKE
 
